@@ -135,7 +135,84 @@ func cmdReplay(args []string) {
 			}
 		}
 	}
+	sharedParse(&u, cases, worlds, strings.Split(*strat, ","), rep)
 	rep.Emit()
+}
+
+// sharedParse: the cases TLC enumerates for one document differ in operation, variables and injected
+// failures.  They are resolved here, forwards and then backwards, on ONE parsed Executable per document
+// and strategy: each response must still be the one Sem prescribes for that case alone (what a call
+// leaves behind in the parsed request or in the root must not reach the next call).
+func sharedParse(u *gq.Universe, cases []gq.Case, worlds map[string]*gq.World, strats []string, rep *vh.Report) {
+	groups := map[string][]int{}
+	var order []string
+	for i := range cases {
+		c := &cases[i]
+		if c.Mix != nil || gq.HasNthFault(c) || c.Fam == "abstract" || c.Fam == "defectabs" {
+			continue
+		}
+		k := c.Doc.Text(gq.Layouts[0])
+		if _, seen := groups[k]; !seen {
+			order = append(order, k)
+		}
+		groups[k] = append(groups[k], i)
+	}
+	for gi, k := range order {
+		idx := groups[k]
+		if len(idx) < 2 {
+			continue
+		}
+		for _, s := range strats {
+			w := worlds[s+"0"]
+			if w == nil {
+				continue
+			}
+			suitable := true
+			for _, i := range idx {
+				if s == "refl" && !gq.ReflSuitable(u, &cases[i]) {
+					suitable = false
+				}
+			}
+			if !suitable {
+				continue
+			}
+			exe, err := w.Root.ParseExecutableString(cases[idx[0]].Doc.Text(gq.Layouts[gi%len(gq.Layouts)]))
+			if err != nil || exe == nil {
+				continue // a document refused when parsed is judged by the per-case replay
+			}
+			seq := append([]int{}, idx...)
+			for j := len(idx) - 1; j >= 0; j-- {
+				seq = append(seq, idx[j])
+			}
+			for n, i := range seq {
+				c := &cases[i]
+				w.SetFaults(c.Faults)
+				act := w.RunExe(exe, c.Op, c.Vars)
+				rep.Case(fmt.Sprintf("shared|%s|%s|%d|%d", s, k, n, i), len(c.Exp.Calls) >= 2)
+				rep.Class("shared-parse")
+				diffs := gq.Compare(c.Exp, act, true)
+				if len(diffs) == 0 {
+					continue
+				}
+				known := ""
+				if c.ExpK != nil {
+					if kd := gq.Compare(c.ExpK, act, true); len(kd) == 0 {
+						known = strings.Join(c.KDevs, "+")
+						if known == "" {
+							known = "K"
+						}
+					}
+				}
+				for _, d := range diffs {
+					rep.Mismatch(vh.Mismatch{
+						Case: map[string]interface{}{"fam": c.Fam, "request": k, "op": c.Op, "vars": c.Vars, "faults": c.Faults, "strategy": s,
+							"aspect": d.Aspect, "session": fmt.Sprintf("call %d of %d on one parsed executable", n+1, len(seq))},
+						What: d.Aspect + ": (one parsed executable resolved repeatedly) " + d.What, Known: known})
+				}
+				break // later calls of a session that already went wrong add nothing
+			}
+		}
+	}
 }
 
 // cmdRecord: direction B.  Random universes and documents are executed on the real
